@@ -242,26 +242,6 @@ impl GqlTranslator {
             }
         }
 
-        // Apply SKIP
-        if let Some(skip_expr) = &query.return_clause.skip
-            && let ast::Expression::Literal(ast::Literal::Integer(n)) = skip_expr
-        {
-            plan = LogicalOperator::Skip(SkipOp {
-                count: *n as usize,
-                input: Box::new(plan),
-            });
-        }
-
-        // Apply LIMIT
-        if let Some(limit_expr) = &query.return_clause.limit
-            && let ast::Expression::Literal(ast::Literal::Integer(n)) = limit_expr
-        {
-            plan = LogicalOperator::Limit(LimitOp {
-                count: *n as usize,
-                input: Box::new(plan),
-            });
-        }
-
         // Check if RETURN contains aggregate functions
         let has_aggregates = query
             .return_clause
@@ -354,6 +334,27 @@ impl GqlTranslator {
             plan = LogicalOperator::Return(ReturnOp {
                 items: return_items,
                 distinct: query.return_clause.distinct,
+                input: Box::new(plan),
+            });
+        }
+
+        // Apply SKIP and LIMIT last: they select a window of the aggregated,
+        // ordered and projected result
+        if let Some(skip_expr) = &query.return_clause.skip
+            && let ast::Expression::Literal(ast::Literal::Integer(n)) = skip_expr
+        {
+            plan = LogicalOperator::Skip(SkipOp {
+                count: *n as usize,
+                input: Box::new(plan),
+            });
+        }
+
+        // Apply LIMIT
+        if let Some(limit_expr) = &query.return_clause.limit
+            && let ast::Expression::Literal(ast::Literal::Integer(n)) = limit_expr
+        {
+            plan = LogicalOperator::Limit(LimitOp {
+                count: *n as usize,
                 input: Box::new(plan),
             });
         }
